@@ -715,6 +715,83 @@ func main() {
 		emit("ties", &sequence{cmds: addsOf(r, ws)}, i%3 == 0)
 	}
 
+	// 4b. the boundaries of the fallback of commit 290c777 (weighEvenly when a computed weight fails
+	// `w >= 0 && w <= 1+1e-9` or usedSlots <= 0).
+	// (i) subnormal / tiny fixed weights: 1/sumFixed is finite or +Inf depending on the sum
+	for i := 0; i < run.Scale(40, 600) && !debugEdgeOnly; i++ {
+		n := 1 + r.Intn(4)
+		if r.Intn(4) == 0 {
+			n = 5 + r.Intn(36)
+		}
+		s := &sequence{direct: true}
+		for j := 0; j < n; j++ {
+			c := command{kind: "add", tg: mkTarget(r, j)}
+			switch r.Intn(6) {
+			case 0: // dynamic
+			case 1:
+				c.w = math.Float64frombits(uint64(1 + r.Intn(1<<20))) // deep subnormal
+			case 2:
+				c.w = (1 + 7*r.Float64()) * 1e-309 // around 2^-1024 .. 2^-1021: 1/sum at the overflow threshold
+			case 3:
+				c.w = math.Ldexp(1+r.Float64(), -1025+r.Intn(6))
+			case 4:
+				c.w = math.Ldexp(1+r.Float64(), -1000+r.Intn(900))
+			case 5:
+				c.w = []float64{1e-300, 1e-310, 2.2250738585072014e-308, 1.1125369292536007e-308, 5.562684646268003e-309}[r.Intn(5)]
+			}
+			s.cmds = append(s.cmds, c)
+		}
+		emit("fallback-subnormal", s, false)
+	}
+	// (ii) huge fixed weights: the sum is finite or +Inf (scale 0, every weight 0, usedSlots = 0)
+	for i := 0; i < run.Scale(30, 400) && !debugEdgeOnly; i++ {
+		n := 2 + r.Intn(3)
+		s := &sequence{direct: true}
+		for j := 0; j < n; j++ {
+			c := command{kind: "add", tg: mkTarget(r, j)}
+			switch r.Intn(5) {
+			case 0:
+			case 1:
+				c.w = (0.2 + 1.5*r.Float64()) * 1e308
+			case 2:
+				c.w = math.MaxFloat64 / float64(n) * (0.999 + 0.002*r.Float64())
+			case 3:
+				c.w = math.Ldexp(1+r.Float64(), 900+r.Intn(123))
+			case 4:
+				c.w = []float64{math.MaxFloat64, 8.98846567431158e307, 1e308, 1.7e308}[r.Intn(4)]
+			}
+			s.cmds = append(s.cmds, c)
+		}
+		emit("fallback-huge", s, false)
+	}
+	// (iii) the literal of the test itself, and weights next to it (only reachable as FixedWeights, which
+	// are scaled before they are tested; included so that a change of the constant's role shows)
+	for _, w := range []float64{1 + 1e-9, math.Nextafter(1+1e-9, 2), math.Nextafter(1+1e-9, 0), 1, math.Nextafter(1, 2), 1.000001} {
+		for _, extra := range []int{0, 1, 3} {
+			s := &sequence{direct: true}
+			s.cmds = append(s.cmds, command{kind: "add", tg: mkTarget(r, 0), w: w})
+			for j := 0; j < extra; j++ {
+				c := command{kind: "add", tg: mkTarget(r, j+1)}
+				if j == 1 {
+					c.w = 1e-12
+				}
+				s.cmds = append(s.cmds, c)
+			}
+			emit("fallback-literal", s, false)
+		}
+	}
+	// (iv) one or two small fixed weights in front of a large pool of dynamic targets: every
+	// target is below or near one slot (quick: up to 250 targets, the ring bytes hold indices < 254)
+	for i := 0; i < run.Scale(6, 60) && !debugEdgeOnly; i++ {
+		n := 120 + r.Intn(130)
+		ws := make([]string, n)
+		ws[r.Intn(n)] = []string{"1e-5", "0.99", "0.9999", "0.00001", "1e-12", "0.5"}[r.Intn(6)]
+		if r.Intn(2) == 0 {
+			ws[r.Intn(n)] = []string{"1e-5", "0.009", "1e-7"}[r.Intn(3)]
+		}
+		emit("many-dynamic", &sequence{cmds: addsOf(r, ws)}, false)
+	}
+
 	// 5. float64 corner cases through the config language and through setWeight
 	edge := [][]string{
 		{"Inf"}, {"+Inf", ""}, {"", "inf"}, {"0.5", "Inf"}, {"Inf", "Inf"},
